@@ -34,3 +34,46 @@ Theorem command_table_pinned :
   (forall st s c args, in_auth_switch c = false -> auth_handler st s c args = (s, r_minus)) /\
   (forall fl st s c args, in_trans_switch c = false -> trans_handler fl st s c args = (s, r_minus, st)).
 Proof. split; [exact table_ok_true|]. split; [exact auth_default|exact trans_default]. Qed.
+
+(** * Reply sites and the STLS conditions, pinned
+
+    The first word of what every [send(...)] of the session code writes (Gen/Pop3Consts.v,
+    in source order per function) is "+OK", "-ERR", the terminator ".", a listing row ("%v ..."),
+    a message line (an expression) or a capability word - nothing else; and the number of +OK and
+    -ERR sites per function is the one the model was transcribed from.  The three conditions that
+    govern STLS are the source text [capa_lists_stls] / [stls_available] of Model/Pop3Tls.v
+    transcribe.  A changed reply site or condition makes this file fail to re-check. *)
+Definition w_plus : str := [43; 79; 75].
+Definition w_minus : str := [45; 69; 82; 82].
+Definition allowed_head (h : str) : bool :=
+  mem_str h [w_plus; w_minus; [46]; [37; 118]; [60; 101; 120; 112; 114; 62];
+             [84; 79; 80]; [85; 83; 69; 82]; [85; 73; 68; 76];
+             [73; 77; 80; 76; 69; 77; 69; 78; 84; 65; 84; 73; 79; 78]; [83; 84; 76; 83]].
+Definition count_head (h : str) (l : list str) : nat := length (filter (str_eqb h) l).
+Definition site_counts (l : list str) : nat * nat * nat := (count_head w_plus l, count_head w_minus l, length l).
+
+Definition reply_sites_ok : bool :=
+  forallb allowed_head (pop3_loop_sends ++ pop3_auth_sends ++ pop3_trans_sends ++ pop3_retr_sends ++ pop3_top_sends ++ pop3_ooseq_sends).
+
+Theorem reply_sites_pinned :
+  reply_sites_ok = true /\
+  site_counts pop3_loop_sends = (2, 4, 12)%nat /\
+  site_counts pop3_auth_sends = (5, 4, 9)%nat /\
+  site_counts pop3_trans_sends = (11, 26, 41)%nat /\
+  site_counts pop3_retr_sends = (0, 2, 5)%nat /\
+  site_counts pop3_top_sends = (0, 2, 5)%nat /\
+  site_counts pop3_ooseq_sends = (0, 1, 1)%nat.
+Proof. vm_compute. repeat split; reflexivity. Qed.
+
+(** [s.tlsConfig != nil && s.tlsState == nil && !s.config.ForceTLS] *)
+Definition capa_stls_cond_src : str := [115; 46; 116; 108; 115; 67; 111; 110; 102; 105; 103; 32; 33; 61; 32; 110; 105; 108; 32; 38; 38; 32; 115; 46; 116; 108; 115; 83; 116; 97; 116; 101; 32; 61; 61; 32; 110; 105; 108; 32; 38; 38; 32; 33; 115; 46; 99; 111; 110; 102; 105; 103; 46; 70; 111; 114; 99; 101; 84; 76; 83].
+(** [!s.Server.config.TLSEnabled || s.Server.config.ForceTLS] *)
+Definition stls_unavailable_cond_src : str := [33; 115; 46; 83; 101; 114; 118; 101; 114; 46; 99; 111; 110; 102; 105; 103; 46; 84; 76; 83; 69; 110; 97; 98; 108; 101; 100; 32; 124; 124; 32; 115; 46; 83; 101; 114; 118; 101; 114; 46; 99; 111; 110; 102; 105; 103; 46; 70; 111; 114; 99; 101; 84; 76; 83].
+(** [s.tlsState != nil] *)
+Definition stls_already_cond_src : str := [115; 46; 116; 108; 115; 83; 116; 97; 116; 101; 32; 33; 61; 32; 110; 105; 108].
+
+Theorem stls_conditions_pinned :
+  pop3_capa_stls_cond = capa_stls_cond_src /\
+  pop3_stls_unavailable_cond = stls_unavailable_cond_src /\
+  pop3_stls_already_cond = stls_already_cond_src.
+Proof. vm_compute. repeat split; reflexivity. Qed.
